@@ -1,8 +1,11 @@
 pub mod c01;
+pub mod c14;
 pub mod c15;
 pub mod c16;
+pub mod c17;
 pub mod c18;
 pub mod c19;
+pub mod c20;
 pub mod farm_hist;
 pub mod farmprops;
 pub mod farm_twins;
@@ -37,10 +40,13 @@ fn run_inner(prop: &str, tier: Tier, seed: u64) -> Option<PropReport> {
         "C03" => poolprops::check_c03(tier, seed),
         "C04" => poolprops::check_c04(tier, seed),
         "C12" => poolprops::check_c12(tier, seed),
+        "C14" => c14::check(tier, seed),
         "C15" => c15::check(tier, seed),
         "C16" => c16::check(tier, seed),
+        "C17" => c17::check(tier, seed),
         "C18" => c18::check(tier, seed),
         "C19" => c19::check(tier, seed),
+        "C20" => c20::check(tier, seed),
         "SURVEY19" => c19::check_survey(tier, seed),
         "DEVF" => farm_hist::dev(tier, seed),
         p if p.starts_with("DEVF") => farmprops::dev(&p[4..].to_lowercase(), tier, seed),
@@ -60,6 +66,10 @@ fn run_inner(prop: &str, tier: Tier, seed: u64) -> Option<PropReport> {
 fn replay_engine(engine: &str, case: &Value) -> Option<Result<Result<(), String>, String>> {
     Some(match engine {
         "epoch-arith" => replay_case(&c18::C18, case),
+        "fault-walk" => replay_case(&c20::FaultWalk, case),
+        "single-asset-twins" => replay_case(&c14::Twin, case),
+        "single-asset-fault-walk" => replay_case(&c14::Faults, case),
+        "feature-switch-twins" => replay_case(&c17::Switches, case),
         "auth-matrix" => replay_case(&c15::Matrix, case),
         "pool-creation-validity" => replay_case(&c16::Creation, case),
         "stableswap-quote-vs-exact" => replay_case(&c19::C19Swap { survey: false }, case),
